@@ -15,7 +15,7 @@ PROPS = {
     "C03": P(shards={"quick": 16, "thorough": 16}),
     "C19": P(),
     "C04": P(),
-    "C17": P(race={"quick": True, "thorough": True}, shards={"quick": 5, "thorough": 10}, gomaxprocs=[4, 2, 8, 16, 3], shard_timeout={"quick": 900, "thorough": 3000}),
+    "C17": P(race={"quick": True, "thorough": True}, shards={"quick": 6, "thorough": 12}, gomaxprocs=[4, 2, 8, 16, 3, 6], shard_timeout={"quick": 900, "thorough": 3000}),
     "C11": P(shard_timeout={"quick": 900, "thorough": 3000}),
     "C05": P(),
     "C06": P(),
